@@ -11,6 +11,7 @@
 package c16
 
 import (
+	"archive/zip"
 	"bytes"
 	"context"
 	"fmt"
@@ -55,9 +56,20 @@ type client struct {
 	dest string
 }
 
+// a stored version may itself hold an archive: it must come back as the file it is
+func embeddedArchive(v int) []byte {
+	var b bytes.Buffer
+	w := zip.NewWriter(&b)
+	f, _ := w.Create("lib/dep.txt")
+	_, _ = f.Write([]byte(fmt.Sprintf("dependency of version %d", v)))
+	_ = w.Close()
+	return b.Bytes()
+}
+
 func versionFiles(v int) map[string][]byte {
 	big := bytes.Repeat([]byte{byte('A' + v)}, 40000+v)
 	return map[string][]byte{
+		"vendor/deps.zip":                embeddedArchive(v),
 		"a.txt":                          []byte(fmt.Sprintf("version %d: a", v)),
 		"sub/b.txt":                      []byte(fmt.Sprintf("version %d: b", v)),
 		"sub/deep/c.bin":                 big,
